@@ -114,6 +114,7 @@ SIMPLE = [
     ("u5_limit", "ops::limit", "budget > cost: budget -= cost, continue at ip+2; else budget := 0, r0/r1 spilled, tape pointer saved, returns ip+2 (the NEXT instruction) -- execute_in's loop then reports 'not finished'", ["C07"]),
     ("u5_emit_limit_return", "ops::{emit_limit, emit_return, adjust_branch}", "push [limit, cost] / [ret]; adjust_branch patches word 2 only", ["C07", "C02"]),
     ("u5_enter_ops", "ops::enter_ops", "makes [min_accessed, max_accessed] accessible (window invariant established), loads r0/r1 from temps[0..2], enters the first op with the current tape pointer", ["C06", "C02"]),
+    ("u5_enter_ops_used_tape", "ops::enter_ops (context that already owns a tape)", "from ANY tape with the pointer inside it (the window of the new program need not be): the window invariant is established and the current cell keeps its value", ["C06", "C02"]),
 ]
 
 MOVES = [
